@@ -7,7 +7,7 @@
 
    - ExportGenesis emits, per (field, prefix read by its getter), one chunk: the entries under that
      prefix - or one zero-valued record per entry when the getter never looks at the stored value
-     (collector.GetAllNetFeeCollectedData);
+     (collector.GetAllNetFeeCollectedData before its repair; no getter has that shape any more);
    - InitGenesis fills prefix b from the first chunk that (i) was read from b itself and (ii) sits
      in a field that is passed to a setter writing b (direct); failing that from the first chunk
      read from ANOTHER prefix whose field is passed to a setter writing b (a derived index, e.g.
@@ -22,7 +22,9 @@ From Comdex Require Import Lib.Base Lib.GenesisTypes Gen.GenesisTable.
 Open Scope Z_scope.
 
 Record table := mkT {
-  t_pref : list prefix_row; t_exp : list export_row; t_imp : list import_row; t_unrec : list unrec_row }.
+  t_pref : list prefix_row; t_exp : list export_row; t_imp : list import_row; t_unrec : list unrec_row;
+  t_guard : list guard_row;    (* what the cross-state validating setters depend on *)
+  t_order : list string }.     (* the modules in the order app.go initialises them *)
 
 Definition mem_str (s : string) (l : list string) : bool := existsb (String.eqb s) l.
 Definition mem_z (z : Z) (l : list Z) : bool := existsb (Z.eqb z) l.
@@ -118,20 +120,73 @@ Definition why_lost (t : table) (m : string) (b : Z) : Z :=
   if ex && im then 3 else if ex then 2 else if im then 1 else 0.
 
 (* [init] above is the success path of InitGenesis.  Some setters validate their argument against
-   OTHER state and return an error (collector.SetCollectorLookupTable wants the secondary asset
-   registered as a genesis token of the app); InitGenesis reacts by returning (guard 1: everything
-   after the call is skipped too) or by dropping the item (guard 2).  Whether that happens is not
-   a function of the module's own store, so the table only says which prefixes are AT RISK: fed by
-   a setter that can fail, or by any setter called after one whose failure makes InitGenesis
-   return.  Such a prefix does not count as surviving. *)
-Fixpoint taint (tainted : bool) (rows : list import_row) : list (import_row * bool) :=
+   OTHER state and return an error (esm.SetKillSwitchData wants the app registered in the asset
+   module); InitGenesis reacts by returning (guard 1: everything after the call is skipped too) or by
+   dropping the item (guard 2).  Whether that happens is not a function of the module's own store,
+   so the table only says which prefixes are AT RISK: fed by a setter that can fail that way, or by
+   any setter called after one whose failure makes InitGenesis return.  Such a prefix does not count
+   as surviving.
+   Guards 3 / 4 are setters whose every failing return is guarded by a condition over the imported
+   ITEM alone (collector.SetNetFeeCollectedData rejects a negative fee).  The items of a round trip
+   are the records the module's own writers stored, and the writers of that prefix enforce the same
+   condition (both writers of the net-fee prefix reject a negative result), so the success path is
+   the path taken: these rows put nothing at risk.  The behavioural run checks exactly this (the
+   prediction for such a prefix is "identical"). *)
+(* A setter that validates against other state (guards 1 / 2) is still harmless on a round trip when
+   - it is the ONLY writer of the prefixes it writes: every stored record went through the same
+     validation when it was written;
+   - it reads nothing of its own module's store;
+   - everything it asks other modules reads prefixes there that are never deleted from, that come
+     back from the round trip (directly, through setters that cannot fail), and whose module app.go
+     initialises EARLIER: what the validation saw when the record was written is still there, and
+     already there, when the record is imported.
+   esm.SetKillSwitchData (the app must exist: asset.GetApp, apps are never deleted, asset precedes
+   esm) is of that kind; collector.SetCollectorLookupTable was not (WasmSetCollectorLookupTable wrote
+   the same prefix without the genesis-token check).  The behavioural run imports the modules in an
+   order that respects [t_order]'s constraints and compares the prefix. *)
+Fixpoint index_of (m : string) (l : list string) (i : nat) : option nat :=
+  match l with
+  | [] => None
+  | x :: r => if String.eqb x m then Some i else index_of m r (S i)
+  end.
+Definition precedes (order : list string) (m1 m2 : string) : bool :=
+  match index_of m1 order 0, index_of m2 order 0 with
+  | Some i, Some j => Nat.ltb i j
+  | _, _ => false
+  end.
+
+Definition unguarded (t : table) (m : string) : bool := forallb (fun r => i_guard r =? 0) (imp_rows t m).
+
+Definition foreign_ok (t : table) (m : string) (f : string * string * list Z) : bool :=
+  let m' := fst (fst f) in
+  let bs := snd f in
+  precedes (t_order t) m' m && unguarded t m' &&
+  match bs with [] => false | _ => true end &&
+  forallb (fun b => match find (fun p => String.eqb (p_mod p) m' && (p_byte p =? b)) (t_pref t) with
+                    | Some p => match p_deleters p with [] => true | _ => false end &&
+                                cover_ok (classify t m' b)
+                    | None => false
+                    end) bs.
+
+Definition guard_harmless (t : table) (r : import_row) : bool :=
+  match find (fun g => String.eqb (g_mod g) (i_mod r) && String.eqb (g_setter g) (i_setter r)) (t_guard t) with
+  | Some g => g_sole g && g_noreads g &&
+              match g_foreign g with [] => false | _ => true end &&
+              forallb (foreign_ok t (i_mod r)) (g_foreign g)
+  | None => false
+  end.
+
+Definition cross_guard (t : table) (r : import_row) : bool :=
+  ((i_guard r =? 1) || (i_guard r =? 2)) && negb (guard_harmless t r).
+
+Fixpoint taint (t : table) (tainted : bool) (rows : list import_row) : list (import_row * bool) :=
   match rows with
   | [] => []
-  | r :: rest => (r, tainted || negb (i_guard r =? 0)) :: taint (tainted || (i_guard r =? 1)) rest
+  | r :: rest => (r, tainted || cross_guard t r) :: taint t (tainted || ((i_guard r =? 1) && cross_guard t r)) rest
   end.
 
 Definition at_risk (t : table) (m : string) (b : Z) : bool :=
-  existsb (fun rr => snd rr && mem_z b (i_writes (fst rr))) (taint false (imp_rows t m)).
+  existsb (fun rr => snd rr && mem_z b (i_writes (fst rr))) (taint t false (imp_rows t m)).
 
 (* a prefix is live when some keeper function writes under it *)
 Definition live (p : prefix_row) : bool := match p_writers p with [] => false | _ => true end.
@@ -206,6 +261,9 @@ Definition restored_value (r : restore) (orig : Z) (items : entries) : option Z 
   | RUnknown => None
   end.
 
+(* the regenerated table *)
+Definition the_table : table := mkT prefixes exports imports unrecognised guard_deps init_order.
+
 (* ---------------- the property predicate and the known-finding classes ---------------- *)
 (* what the round trip is predicted to do to a (module, prefix): true = comes back identical *)
 Definition survives (t : table) (m : string) (p : prefix_row) : bool :=
@@ -214,15 +272,25 @@ Definition survives (t : table) (m : string) (p : prefix_row) : bool :=
 
 Local Open Scope string_scope.
 
-(* Known holes on the unchanged tree: (module, prefix byte, class).  Hand-written; the table
-   theorem says that every live prefix outside this list survives. *)
+(* Known holes: (module, prefix byte, class).  Hand-written; the table theorem says that every live
+   prefix outside this list survives.
+   fixed: property=C20 PENDING class 1 (collector net fees exported as zero-valued records) - the row
+          ("collector", 8) is gone: GetAllNetFeeCollectedData unmarshals the stored value;
+   fixed: property=C20 PENDING class 2 (auctionsV2 InitGenesis set the auction id and the user bid id
+          to 0 although both are exported) - the rows ("auctionsV2", 1 | 5) are gone;
+   fixed: property=C20 PENDING class 7 (auction V1 InitGenesis filled the lend dutch auctions from the
+          DutchAuction field) - the row ("auction", 32) is gone;
+   decided, not a defect: class 13 (esm kill switches imported through the validating
+          SetKillSwitchData, InitGenesis returning on its error) - the rows ("esm", 4 | 5 | 7) are gone:
+          the guard is harmless ([guard_harmless]: sole writer, validates against never-deleted
+          asset apps, asset is initialised before esm);
+   fixed: property=C20 PENDING class 12 (collector lookup table imported through the validating
+          setter, InitGenesis returning on its error) - the rows ("collector", 3 | 1 | 5 | 7) are
+          gone: InitGenesis stores the exported records with SetGenCollectorLookupTable. *)
 Definition known_holes : list (string * Z * Z) :=
-  [ (* 1: collector net fees are exported as zero-valued records *)
-    ("collector", 8, 1);
-    (* 2: auctionsV2 InitGenesis ignores the exported AuctionId / UserBiddingID (sets 0), and never
-          restores the limit-bid id *)
-    ("auctionsV2", 1, 2); ("auctionsV2", 5, 2); ("auctionsV2", 3, 2);
-    (* 3: auctionsV2 bids, limit bids, protocol data and histories are not exported *)
+  [ (* 3: auctionsV2 bids, limit bids (and their id counter), protocol data and histories are in no
+          GenesisState field *)
+    ("auctionsV2", 3, 3);
     ("auctionsV2", 6, 3); ("auctionsV2", 7, 3); ("auctionsV2", 8, 3); ("auctionsV2", 9, 3);
     ("auctionsV2", 17, 3); ("auctionsV2", 18, 3); ("auctionsV2", 19, 3); ("auctionsV2", 20, 3);
     (* 4: liquidation V1 restores LockedVaultID as the NUMBER of locked vaults *)
@@ -231,10 +299,6 @@ Definition known_holes : list (string * Z * Z) :=
     ("liquidationsV2", 3, 5);
     (* 6: the liquidation sweep offsets are not exported *)
     ("liquidation", 22, 6); ("liquidationsV2", 2, 6);
-    (* 7: auction V1: lend dutch auctions imported from the DutchAuction field, biddings and
-          histories not exported, auction ids taken from the last dutch auction only *)
-    ("auction", 32, 7); ("auction", 18, 7); ("auction", 21, 7); ("auction", 22, 7);
-    ("auction", 33, 7); ("auction", 34, 7); ("auction", 35, 7); ("auction", 19, 7); ("auction", 25, 7);
     (* 8: vault does not export StableMintVaultRewards *)
     ("vault", 24, 8);
     (* 9: the locker id counter is neither exported nor imported *)
@@ -243,25 +307,64 @@ Definition known_holes : list (string * Z * Z) :=
            can be deleted, or the last element): the id of a closed newest record is handed out again *)
     ("vault", 21, 10); ("rewards", 34, 10); ("rewards", 40, 10);
     ("lend", 22, 10); ("lend", 23, 10); ("lend", 24, 10); ("lend", 37, 10);
-    (* 11: further records that no genesis field carries *)
+    (* 11: further records that no genesis field carries (read from the table only) *)
     ("asset", 36, 11); ("collector", 9, 11); ("esm", 16, 11); ("esm", 17, 11); ("lend", 81, 11);
-    ("liquidation", 18, 11); ("liquidation", 23, 11); ("liquidationsV2", 7, 11);
-    ("rewards", 21, 11); ("rewards", 22, 11); ("rewards", 23, 11); ("rewards", 32, 11);
-    ("rewards", 41, 11); ("rewards", 48, 11);
-    (* 12: imported through (or after) a setter that validates against other state; when it returns
-           an error InitGenesis silently returns and the rest of the module's genesis is dropped *)
-    ("collector", 3, 12); ("collector", 1, 12); ("collector", 5, 12); ("collector", 7, 12);
-    ("esm", 4, 12); ("esm", 5, 12); ("esm", 7, 12) ].
+    ("liquidationsV2", 7, 11);
+    ("rewards", 21, 11); ("rewards", 22, 11);
+    (* 14: auction V1: biddings and histories are not exported; both auction id counters are taken
+           from the LAST exported (lend) dutch auction only *)
+    ("auction", 18, 14); ("auction", 21, 14); ("auction", 22, 14);
+    ("auction", 33, 14); ("auction", 34, 14); ("auction", 35, 14); ("auction", 19, 14); ("auction", 25, 14);
+    (* 15: liquidation V1: the locked-vault histories are not exported *)
+    ("liquidation", 18, 15); ("liquidation", 23, 15);
+    (* 16: rewards: the external rewards of stable-mint vaults, the reward epochs and both their id
+           counters are not exported (the reward coins stay in the module account) *)
+    ("rewards", 23, 16); ("rewards", 32, 16); ("rewards", 41, 16); ("rewards", 48, 16) ].
+
+(* An id counter is a known hole only in the SHAPE in which it was found: how InitGenesis restores it
+   (code of [counter_restore]: 1 maximum id of the imported records, 2 id of the last imported record
+   - the getters iterate in ascending id order, so that is the maximum too -, 3 NUMBER of imported
+   records, 4 constant 0, 5 never set).  Maximum / last hand the id of a deleted NEWEST record out
+   again (class 10 / 14: no collision); a count collides with a live record as soon as an OLDER
+   record was deleted (liquidation V1, class 4, reproduced); absent collides with record 1.  A
+   counter whose regenerated shape differs from the one listed here is in no class: a maximum that
+   turns into a count (or a counter that is no longer restored at all) fails the table theorem and
+   is reported by the behavioural run as a violation, not as the known finding. *)
+Definition shape_code (r : restore) : Z :=
+  match r with RExact => 0 | RMax _ => 1 | RLast _ => 2 | RCount _ => 3 | RZero => 4 | RAbsent => 5 | RUnknown => 6 end.
+
+Definition known_counter_shapes : list (string * Z * Z) :=
+  [ ("vault", 21, 1); ("rewards", 34, 1); ("rewards", 40, 1);
+    ("lend", 22, 2); ("lend", 23, 2); ("lend", 24, 2); ("lend", 37, 2);
+    ("auction", 19, 2); ("auction", 25, 2);
+    ("liquidation", 1, 3);
+    ("auctionsV2", 3, 5); ("liquidationsV2", 3, 5); ("locker", 23, 5);
+    ("rewards", 21, 5); ("rewards", 22, 5); ("rewards", 23, 5); ("rewards", 48, 5) ].
 Local Close Scope string_scope.
 
+Definition hole_shape_ok (t : table) (m : string) (b : Z) : bool :=
+  match find (fun p => String.eqb (p_mod p) m && (p_byte p =? b)) (t_pref t) with
+  | Some p =>
+    if p_counter p then
+      match find (fun h => String.eqb (fst (fst h)) m && (snd (fst h) =? b)) known_counter_shapes with
+      | Some h => shape_code (counter_restore t m b) =? snd h
+      | None => false
+      end
+    else true
+  | None => false
+  end.
+
 Definition kf_C20 (n : Z) (m : string) (b : Z) : bool :=
-  existsb (fun h => String.eqb (fst (fst h)) m && (snd (fst h) =? b) && (snd h =? n)) known_holes.
+  existsb (fun h => String.eqb (fst (fst h)) m && (snd (fst h) =? b) && (snd h =? n)) known_holes &&
+  hole_shape_ok the_table m b.
 Definition kf_C20_any (m : string) (b : Z) : bool :=
-  existsb (fun h => String.eqb (fst (fst h)) m && (snd (fst h) =? b)) known_holes.
+  existsb (fun h => String.eqb (fst (fst h)) m && (snd (fst h) =? b)) known_holes &&
+  hole_shape_ok the_table m b.
 (* class number of a (module, prefix), 0 when it is in no class *)
 Definition kf_C20_class (m : string) (b : Z) : Z :=
   match find (fun h => String.eqb (fst (fst h)) m && (snd (fst h) =? b)) known_holes with
-  | Some h => snd h | None => 0 end.
+  | Some h => if hole_shape_ok the_table m b then snd h else 0
+  | None => 0 end.
 
 (* ---------------- predicates evaluated on the implementation's observations ---------------- *)
 Fixpoint entries_eqb (a b : entries) : bool :=
@@ -279,8 +382,6 @@ Definition holds_C20_prefix (orig reimported : entries) : bool := entries_eqb or
 Definition holds_C20_step (class_o class_n id_o id_n bal_o bal_n : Z) : bool :=
   (class_o =? class_n) && (id_o =? id_n) && (bal_o =? bal_n).
 
-(* the regenerated table *)
-Definition the_table : table := mkT prefixes exports imports unrecognised.
 
 (* prediction for one prefix row of the regenerated table, as a small code for the runner:
    0 identical, 1 zero-valued records, 2 empty, 3 counter recomputed (see [counter_restore]),
